@@ -262,6 +262,16 @@ func (x *Exec) applyContract(st *State, site ssa.Instruction, fn *ssa.Function, 
 		x.oblige(st, "callpre", fmt.Sprintf("%s#%d.%s", name, x.callN[name], lbl), g, "precondition of "+name+": "+r.Text)
 		x.assume(st, x.dropKnownConjuncts(True(), g))
 	}
+	if c.Logged {
+		// the call itself is recorded (by the caller, before the callee's own effects): postconditions of the
+		// caller can then say that this function was called, with which receiver and arguments
+		recv := Val{K: VOpaque}
+		la := args
+		if fn.Signature.Recv() != nil && len(args) > 0 {
+			recv, la = args[0], args[1:]
+		}
+		x.logAppend(st, name, recv, la)
+	}
 	pre := st.heap.Clone()
 	allocPre := st.alloc
 	// havoc the frame
@@ -535,7 +545,9 @@ func flatten(v Val, out *[]*Term) {
 	}
 }
 
-func (x *Exec) externalCall(st *State, name string, recv Val, args []Val, res *types.Tuple) Val {
+// logAppend appends one entry (callee name, receiver, flattened arguments) to the ghost call log and
+// returns the position it was written at.
+func (x *Exec) logAppend(st *State, name string, recv Val, args []Val) *Term {
 	h := st.heap
 	nfam := h.Get("log#n", 0, SInt)
 	n := nfam.Select(nil)
@@ -563,6 +575,12 @@ func (x *Exec) externalCall(st *State, name string, recv Val, args []Val, res *t
 		}
 	}
 	h.Set("log#n", nfam.Store(nil, Add(n, IntLit(1))))
+	return n
+}
+
+func (x *Exec) externalCall(st *State, name string, recv Val, args []Val, res *types.Tuple) Val {
+	h := st.heap
+	n := x.logAppend(st, name, recv, args)
 	x.trust("calls through open interfaces / callbacks (" + strings.SplitN(name, ".", 2)[0] + ") do not modify modelled state; they are recorded in a ghost call log")
 	var results []Val
 	ri := 0
